@@ -129,51 +129,63 @@ Section TermLemma.
         destruct (get_attr a s); [reflexivity|exact U].
   Qed.
 
+  Definition oexp_ok (o : oexp) : Prop := forall t, In t (oexp_terms o) -> name_ok (term_name t).
   Fixpoint bexp_ok (b : bexp) : Prop :=
     match b with
-    | BEqC t _ | BNeC t _ | BTruthy t => name_ok (term_name t)
-    | BEqT t u | BNeT t u => name_ok (term_name t) /\ name_ok (term_name u)
+    | BEqC o _ | BNeC o _ | BGtC o _ | BTruthy o => oexp_ok o
+    | BEqT o u | BNeT o u => oexp_ok o /\ oexp_ok u
     | BNot b => bexp_ok b
     | BAnd b c | BOr b c => bexp_ok b /\ bexp_ok c
     end.
 
-  Lemma beval_ok b : bexp_ok b -> beval (tev cfg nv h') b = Some (spec_bexp ev h' b).
+  Notation sterm := (fun t => RVal (spec_term ev h' t)).
+
+  Lemma oeval_ok o : oexp_ok o -> oeval (tev cfg nv h') o = oeval sterm o.
   Proof.
-    induction b as [t c|t c|t u|t u|t|b IH|b IHb c IHc|b IHb c IHc]; cbn [bexp_ok beval spec_bexp]; intros H.
-    - rewrite (tev_ok t H). reflexivity.
-    - rewrite (tev_ok t H). reflexivity.
-    - destruct H as [Ht Hu]. rewrite (tev_ok t Ht), (tev_ok u Hu). reflexivity.
-    - destruct H as [Ht Hu]. rewrite (tev_ok t Ht), (tev_ok u Hu). reflexivity.
-    - rewrite (tev_ok t H). reflexivity.
-    - rewrite (IH H). reflexivity.
-    - destruct H as [Hb Hc]. rewrite (IHb Hb). destruct (spec_bexp ev h' b); cbn; [apply IHc; exact Hc|reflexivity].
-    - destruct H as [Hb Hc]. rewrite (IHb Hb). destruct (spec_bexp ev h' b); cbn; [reflexivity|apply IHc; exact Hc].
+    unfold oexp_ok. induction o as [t|o IH|o IH|o IH|o IH|o IH|o IH|o IH]; cbn [oeval oexp_terms]; intros H;
+      try (rewrite (IH H); reflexivity).
+    rewrite (tev_ok t (H t (or_introl eq_refl))). reflexivity.
   Qed.
 
-  Lemma all_vals_ok l : Forall bexp_ok l -> all_vals (tev cfg nv h') l = Some (map (spec_bexp ev h') l).
+  Lemma beval_ok b : bexp_ok b -> beval (tev cfg nv h') b = beval sterm b.
   Proof.
-    induction l as [|b r IH]; intros H; cbn [all_vals map]; [reflexivity|].
+    induction b as [o c|o c|o u|o u|o n|o|b IH|b IHb c IHc|b IHb c IHc]; cbn [bexp_ok beval]; intros H.
+    - rewrite (oeval_ok o H). reflexivity.
+    - rewrite (oeval_ok o H). reflexivity.
+    - destruct H as [Ho Hu]. rewrite (oeval_ok o Ho), (oeval_ok u Hu). reflexivity.
+    - destruct H as [Ho Hu]. rewrite (oeval_ok o Ho), (oeval_ok u Hu). reflexivity.
+    - rewrite (oeval_ok o H). reflexivity.
+    - rewrite (oeval_ok o H). reflexivity.
+    - rewrite (IH H). reflexivity.
+    - destruct H as [Hb Hc]. rewrite (IHb Hb), (IHc Hc). reflexivity.
+    - destruct H as [Hb Hc]. rewrite (IHb Hb), (IHc Hc). reflexivity.
+  Qed.
+
+  Lemma all_vals_ok l : Forall bexp_ok l -> all_vals (tev cfg nv h') l = all_vals sterm l.
+  Proof.
+    induction l as [|b r IH]; intros H; cbn [all_vals]; [reflexivity|].
     inversion H as [|? ? Hb Hr]; subst. rewrite (beval_ok b Hb), (IH Hr). reflexivity.
   Qed.
 
-  Lemma exprs_truthy_ok l : Forall bexp_ok l -> exprs_truthy (tev cfg nv h') l = existsb (spec_bexp ev h') l.
-  Proof.
-    intros H. unfold exprs_truthy. rewrite (all_vals_ok l H).
-    induction l as [|b r IH]; cbn; [reflexivity|]. inversion H; subst. rewrite IH by assumption. reflexivity.
-  Qed.
+  Lemma exprs_truthy_ok l : Forall bexp_ok l -> exprs_truthy (tev cfg nv h') l = spec_truthy ev h' l.
+  Proof. intros H. unfold spec_truthy, exprs_truthy. rewrite (all_vals_ok l H). reflexivity. Qed.
 
   (* names of an expression are in var_names when there is no watch= *)
+  Lemma oexp_ok_of_names o : (forall n, In n (oexp_names o) -> name_ok n) -> oexp_ok o.
+  Proof. intros H t Ht. apply H. unfold oexp_names. apply in_map. exact Ht. Qed.
+
   Lemma bexp_ok_of_names b : (forall n, In n (bexp_names b) -> name_ok n) -> bexp_ok b.
   Proof.
-    induction b as [t c|t c|t u|t u|t|b IH|b IHb c IHc|b IHb c IHc]; cbn [bexp_ok bexp_names]; intros H.
-    - apply H. left. reflexivity.
-    - apply H. left. reflexivity.
-    - split; apply H; cbn; auto.
-    - split; apply H; cbn; auto.
-    - apply H. left. reflexivity.
+    induction b as [o c|o c|o u|o u|o n|o|b IH|b IHb c IHc|b IHb c IHc]; cbn [bexp_ok bexp_names]; intros H.
+    - apply oexp_ok_of_names. exact H.
+    - apply oexp_ok_of_names. exact H.
+    - split; apply oexp_ok_of_names; intros m Hm; apply H; apply in_or_app; auto.
+    - split; apply oexp_ok_of_names; intros m Hm; apply H; apply in_or_app; auto.
+    - apply oexp_ok_of_names. exact H.
+    - apply oexp_ok_of_names. exact H.
     - apply IH. exact H.
-    - split; [apply IHb|apply IHc]; intros n Hn; apply H; apply in_or_app; auto.
-    - split; [apply IHb|apply IHc]; intros n Hn; apply H; apply in_or_app; auto.
+    - split; [apply IHb|apply IHc]; intros m Hm; apply H; apply in_or_app; auto.
+    - split; [apply IHb|apply IHc]; intros m Hm; apply H; apply in_or_app; auto.
   Qed.
 End TermLemma.
 
@@ -244,7 +256,7 @@ Proof.
   destruct (any_changed ev (trig_anys T)) eqn:A; [reflexivity|]. cbn [orb].
   destruct (values_changed ev (trig_ident T)) eqn:V; cbn [negb andb]; [|reflexivity].
   destruct (trig_exprs T) as [|b r] eqn:Ex.
-  - cbn [existsb]. destruct Hb2 as [H|[H|[Hw Hno]]].
+  - change (spec_truthy ev h' []) with false. destruct Hb2 as [H|[H|[Hw Hno]]].
     + rewrite H. apply andb_false_r.
     + rewrite H. reflexivity.
     + rewrite (no_expr_not_changed T ev Hw Ex Hno A) in V. discriminate.
